@@ -3,7 +3,10 @@ use std::str::FromStr;
 use prqlc::{ErrorMessages, Options, Target};
 use serde_json::{json, Value};
 
-fn s<'a>(req: &'a Value, k: &str) -> &'a str {
+/// extension modules: each is `fn(op, req) -> Option<Value>` (None = not mine)
+const EXTENSIONS: &[fn(&str, &Value) -> Option<Value>] = &[];
+
+pub fn s<'a>(req: &'a Value, k: &str) -> &'a str {
     req.get(k).and_then(|v| v.as_str()).unwrap_or("")
 }
 
@@ -192,6 +195,13 @@ pub fn dispatch(req: &Value) -> Value {
             }
             Value::Object(out)
         }
-        _ => json!({"bad_op": op}),
+        _ => {
+            for f in EXTENSIONS {
+                if let Some(v) = f(op, req) {
+                    return v;
+                }
+            }
+            json!({"bad_op": op})
+        }
     }
 }
